@@ -363,7 +363,11 @@ pub fn exec_lnk(case: &[u64]) -> L {
     }));
     let duplex = flags & 1 != 0;
     let echo = if flags & 16 != 0 { pkts.last().cloned() } else { None };
-    match built { Ok(Some(toks)) => poll_tokens_opts(link, &toks, duplex || echo.is_some(), flags & 8 != 0, echo), _ => vec![3] }
+    // flag 32: real time passes (300 ms) at every scripted 'no data yet' answer - a marked case with one gap inside a multi-frame packet
+    crate::mock::GAP_SLEEP_MS.store(if flags & 32 != 0 { 300 } else { 0 }, std::sync::atomic::Ordering::Relaxed);
+    let res = match built { Ok(Some(toks)) => poll_tokens_opts(link, &toks, duplex || echo.is_some(), flags & 8 != 0, echo), _ => vec![3] };
+    crate::mock::GAP_SLEEP_MS.store(0, std::sync::atomic::Ordering::Relaxed);
+    res
 }
 pub fn gen_lnk(r: &mut Rng, thorough: bool, cx: &mut Ctx) {
     for link in 0..3u64 {
@@ -387,6 +391,9 @@ pub fn gen_lnk(r: &mut Rng, thorough: bool, cx: &mut Ctx) {
             if fl != 0 { l.push(fl); }
             cx.emit(&l);
         }
+        // real time (flag 32): 300 ms pass between the first and the second frame (USART: inside the second frame) of a three-frame packet
+        { let gaps: Vec<u64> = if link == 1 { let mut g = vec![0u64; 40]; g[17] = 1; g } else { vec![0, 1, 0, 0, 0, 0, 0, 0] };
+          let mut l = vec![link, gaps.len() as u64]; l.extend(&gaps); l.push(2); for n in [18usize, 5] { let p = gen_packet(r, n); show_packet(&p, &mut l); } l.push(32); cx.emit(&l); }
         // a receiver object that has already received 70000 packets (flag 8; see poll_tokens_opts)
         { let mut l = vec![link, 1, 1, 3]; for n in [5usize, 20, 0] { let p = gen_packet(r, n); show_packet(&p, &mut l); } l.push(8); cx.emit(&l); }
         // long sequences of small packets (counters kept across packets)
